@@ -428,6 +428,22 @@ def check(ctx: Ctx) -> None:
     as_dict_obligations(ctx, I)
     source_path_map_table(ctx, I)
     save_html_obligations(ctx, I)
+    # nothing on the URL / copy path is remembered between calls: every save recomputes paths from the dependency and copies again
+    from .. import nondet
+    idx = nondet.index_functions(ctx.prog)
+    roots = [f"{CORE}:{q}" for q in ("HTMLDocument.save_html", "Tag.save_html", "TagList.save_html", "HTMLDependency.copy_to", "HTMLDependency.as_dict",
+                                       "HTMLDependency.source_path_map") if f"{CORE}:{q}" in idx]
+    ctx.require(len(roots) >= 4, "save_html / copy_to anchors vanished")
+    for q in nondet.closure(ctx.prog, idx, roots):
+        f = idx[q]
+        if not f.mod.name.startswith("htmltools"):
+            continue
+        for d in nondet.cache_decorators(f):
+            ctx.fail("C12.P2", q, f"@{d}",
+                     f"`{q}` on the save_html / copy_to path is memoised (@{d}): a path or directory computed for an earlier call (another working directory, "
+                     f"another state of the file system) is reused, so the URLs or the copied files no longer correspond to the current source",
+                     witness="save a dependency with a relative subdir, os.chdir(), save another one with the same relative subdir")
+    ctx.ok("C12.P2", "no function on the save_html / copy_to path carries a cache decorator")
     # the settings used for the URLs are the ones save_html copies with: every link of the call chain forwards them
     from .c11 import forwarding_chain
     forwarding_chain(ctx, I, "C12.P2")
